@@ -37,17 +37,19 @@ func (r BatchedTokenRequest) Marshal() []byte {
 }
 
 func (r *BatchedTokenRequest) Unmarshal(data []byte) bool {
-	// At most, a quic varint is 4 byte long. copy them to read the length
-	if len(data) < 4 {
+	l, offset := quicwire.ConsumeVarint(data)
+	if offset < 0 || l > uint64(len(data)-offset) {
 		return false
 	}
-
-	l, offset := quicwire.ConsumeVarint(data)
+	data = data[:offset+int(l)]
 
 	r.token_requests = make([]tokens.TokenRequestWithDetails, 0)
 	i := offset
-	for i < offset+int(l) {
+	for i < len(data) {
 		var token_request tokens.TokenRequestWithDetails
+		if len(data)-i < 2 {
+			return false
+		}
 		token_type := binary.BigEndian.Uint16(data[i : i+2])
 		switch token_type {
 		case type1.BasicPrivateTokenType:
